@@ -1337,6 +1337,32 @@ fn gen_c10e_case(r: &mut Rng, stats: &mut HashMap<String, usize>) -> (String, Ve
     (format!("value={val}"), vec!["inew".into(), format!("iadd {}", hex(&src)), "iexpect ok".into(), format!("iexprval {}", val.to_bits())])
 }
 
+/// C10: a program with user-defined gates against its flattened form (expanded by the generator).
+fn gen_c10f_case(r: &mut Rng, stats: &mut HashMap<String, usize>) -> (String, Vec<String>) {
+    let (prog, flat, expansions, shadow) = crate::qflat::gen(r);
+    *stats.entry(format!("expansions.{}", expansions.min(6))).or_default() += 1;
+    if shadow {
+        *stats.entry("shadow".into()).or_default() += 1;
+    }
+    let seed = r.next() >> 1;
+    let cmds = vec![
+        "inew".to_string(),
+        format!("iadd {}", hex(&prog)),
+        "iexpect ok".into(),
+        "isym new".into(),
+        format!("isym finish {seed}"),
+        "imark macro".into(),
+        "inew".into(),
+        format!("iadd {}", hex(&flat)),
+        "iexpect ok".into(),
+        "isym new".into(),
+        format!("isym finish {seed}"),
+        "imark flat".into(),
+        "isame macro flat".into(),
+    ];
+    (format!("expansions={expansions}"), cmds)
+}
+
 /// C13: a well-formed program with exactly one planted rule violation.
 fn gen_c13_case(r: &mut Rng, stats: &mut HashMap<String, usize>) -> (String, Vec<String>) {
     let p = qgen::gen_program(r, 5, true);
@@ -1773,6 +1799,7 @@ pub fn run(suite: &str, seed: u64, count: usize, kv: &HashMap<String, String>, t
             "intnu" => gen_int_case(&mut r, true, &mut stats),
             "c13" => gen_c13_case(&mut r, &mut stats),
             "c10e" => gen_c10e_case(&mut r, &mut stats),
+            "c10f" => gen_c10f_case(&mut r, &mut stats),
             "c17" => gen_c17_case(&mut r, &mut stats),
             "c18" => gen_c18_case(&mut r, &mut stats),
             "c09" => gen_c09_case(&mut r, &mut stats),
